@@ -103,6 +103,9 @@ func runPairCase(r *fw.Run, p *Pair, prop string, c *pairCase, framing bool) int
 	var exps []expect
 	for ci := range c.Calls {
 		pc := &c.Calls[ci]
+		if c.Reseg == 1 && pc.Style == "oneway" && pc.BigPad > 70000 {
+			pc.BigPad = 0 // byte-wise forwarding of hundreds of KB only costs time
+		}
 		cs := pc.script(jg)
 		text, _ := json.Marshal(cs)
 		var params interface{}
@@ -126,6 +129,30 @@ func runPairCase(r *fw.Run, p *Pair, prop string, c *pairCase, framing bool) int
 			want[i] = st.Raw
 		}
 		switch pc.Style {
+		case "oneway":
+			// the caller's per-call context ends as soon as Send has returned (a helper with `defer cancel()`); no reply
+			// is expected, the handler must see the call all the same - also when nothing but Close follows
+			octx, ocancel := context.WithCancel(ctx)
+			var err error
+			p, hung := catchBounded(60*time.Second, func() { _, err = conn.Send(octx, pairMethod, params, varlink.Oneway) })
+			ocancel()
+			if hung {
+				report("operation-hangs", fmt.Sprintf("call %s: Send (oneway) has not returned within 60 s", pc.ID))
+				go conn.Close()
+				return viol
+			}
+			if p != "" {
+				report("panic", p)
+				conn.Close()
+				return viol
+			}
+			sent++
+			if err != nil {
+				report("send-failed", fmt.Sprintf("call %s: Send with the oneway flag returned %T %v", pc.ID, err, err))
+				conn.Close()
+				return viol
+			}
+			r.Count("oneway_calls", 1)
 		case "call":
 			var out json.RawMessage
 			var err error
@@ -213,13 +240,27 @@ func runPairCase(r *fw.Run, p *Pair, prop string, c *pairCase, framing bool) int
 		return viol
 	}
 	// what the handler read
+	// (a bridge subprocess may still be on its way to the proxy when the client has already closed: it delivers what it was given)
 	pcs := p.Proxy.TakeConns()
+	for dl := time.Now().Add(10 * time.Second); len(pcs) == 0 && sent > 0 && time.Now().Before(dl); {
+		time.Sleep(200 * time.Microsecond)
+		pcs = append(pcs, p.Proxy.TakeConns()...)
+	}
+	settle := func() {
+		for _, pc := range pcs {
+			pc.Wait(30 * time.Second)
+		}
+		p.Rig.WaitIdle(20 * time.Second)
+		p.Rig.Log.Take()
+	}
 	if len(pcs) != 1 {
 		r.Inconclusive("proxy saw %d connections for one client", len(pcs))
+		settle() // nothing of this case may reach the next one
 		return viol
 	}
 	if !pcs[0].Wait(30 * time.Second) {
 		r.Inconclusive("proxy connection did not finish")
+		settle()
 		return viol
 	}
 	p.Rig.WaitIdle(20 * time.Second)
@@ -566,7 +607,16 @@ func genPairCalls(rng *rand.Rand, jg *JGen, tag string, n int, depth int) []Pair
 		case 3:
 			pc.Pad = `{"n":` + jg.Number() + `,"m":null,"s":` + jg.StringLit() + `}`
 		}
-		switch rng.Intn(3) {
+		switch rng.Intn(4) {
+		case 3:
+			if rng.Intn(2) == 0 {
+				pc.Style = "oneway"
+				if rng.Intn(3) == 0 {
+					pc.BigPad = 150000 + rng.Intn(400000) // larger than a socket or pipe buffer: the write takes a moment
+				}
+				break
+			}
+			fallthrough
 		case 0:
 			pc.Style = "call"
 			pc.Replies = []string{jg.Object(depth, 0)}
@@ -913,7 +963,7 @@ func runC02(r *fw.Run) {
 func init() {
 	fw.Register(&fw.Engine{
 		ID: "C03", Level: "exploration",
-		Rule: "a case = one client connection making 1..5 calls through a recording proxy to a real Service on one of the four transports (filesystem unix socket, abstract unix socket, TCP, bridge subprocess via NewBridge) in one of three call styles (Call; Send+receive; Send with more + a sequence of 1,2,3,5,9 or 17 replies). Parameters are generated JSON objects (integers beyond 2^53 and 2^64, exponents, -0, 1.0e+2, empty objects/arrays, null members, unicode incl. NUL escapes, surrogate pairs, U+2028) passed as json.RawMessage, as map[string]interface{} with json.Number, or as a typed struct; each reply's parameters are generated the same way; one reply in eight has no parameters member at all (Reply(ctx, nil)) and one in eight is a nil json.RawMessage or *json.RawMessage, at any place of a sequence. Oracle: what the handler read (GetParameters into json.RawMessage) is number-exactly JSON-equal to what the client passed; what receive/Call yielded (into *json.RawMessage) is number-exactly JSON-equal to what the handler replied, for every reply of a more-sequence, with Continues set on all but the last. The proxy forwards unchanged, byte-wise, or in random pieces. distinct by hash of transport + calls; all cases non-trivial (>= 1 generated document each way). Also per transport: a reply followed by the service closing the connection, read late by the client; two calls in flight (Send, Send, receive..., receive...); 2-5 calls whose Sends and receives interleave in seeded orders (S0 S1 R0 S2 R1 ...) while the proxy coalesces everything the service sends within 3 ms into one segment; a monitor-style handler that sends continues-replies and then waits for an event (the client must get them while it waits); Connection.Close bounded at 15 s.",
+		Rule: "a case = one client connection making 1..5 calls through a recording proxy to a real Service on one of the four transports (filesystem unix socket, abstract unix socket, TCP, bridge subprocess via NewBridge) in one of four call styles (Call; Send+receive; Send with more + a sequence of 1,2,3,5,9 or 17 replies; Send with oneway under a context that ends as soon as Send has returned, also as the last thing before Close, some with 150-550 KB of parameters). Parameters are generated JSON objects (integers beyond 2^53 and 2^64, exponents, -0, 1.0e+2, empty objects/arrays, null members, unicode incl. NUL escapes, surrogate pairs, U+2028) passed as json.RawMessage, as map[string]interface{} with json.Number, or as a typed struct; each reply's parameters are generated the same way; one reply in eight has no parameters member at all (Reply(ctx, nil)) and one in eight is a nil json.RawMessage or *json.RawMessage, at any place of a sequence. Oracle: what the handler read (GetParameters into json.RawMessage) is number-exactly JSON-equal to what the client passed; what receive/Call yielded (into *json.RawMessage) is number-exactly JSON-equal to what the handler replied, for every reply of a more-sequence, with Continues set on all but the last. The proxy forwards unchanged, byte-wise, or in random pieces. distinct by hash of transport + calls; all cases non-trivial (>= 1 generated document each way). Also per transport: a reply followed by the service closing the connection, read late by the client; two calls in flight (Send, Send, receive..., receive...); 2-5 calls whose Sends and receives interleave in seeded orders (S0 S1 R0 S2 R1 ...) while the proxy coalesces everything the service sends within 3 ms into one segment; a monitor-style handler that sends continues-replies and then waits for an event (the client must get them while it waits); Connection.Close bounded at 15 s.",
 		Assumptions: []string{"number fidelity is asserted for callers that receive into json.RawMessage (decoding into interface{} is the caller's own loss)", "an absent parameters member equals {}"},
 		Run:         runC03, Replay: replayPair("C03", false), CrashIsViolation: true, MinEvals: 50,
 		QuickTimeout: 15 * time.Minute, ThoroughTimeout: 60 * time.Minute,
